@@ -123,7 +123,7 @@ func RunCase(cfg Cfg, d Decider) *Obs {
 	return runRaw(cfg, d, imgMine, head)
 }
 
-var wiringCounter atomic.Int64
+var wiringCounter, backendCounter atomic.Int64
 
 // plainWiring forces the VCS-field wiring while fixtures are produced.
 var plainWiring atomic.Bool
@@ -166,7 +166,23 @@ func runRaw(cfg Cfg, d Decider, img []byte, head map[string][]byte) *Obs {
 		ectx.ImageName = "fw.fd"
 	}
 	wiring := wire(ectx, w)
-	ctx := endorse.NewContext(fx.Ctx(kc, cfg.Overwrite, false), ectx)
+	base := fx.Ctx(kc, cfg.Overwrite, false)
+	// backends differ in what a successful commit returns, and the caller's context may end while the
+	// commit that lands is in flight: neither changes what the run has to report
+	if !plainWiring.Load() {
+		switch backendCounter.Add(1) % 4 {
+		case 1:
+			w.NilCommit = true
+			wiring += ",nil-commit-id"
+		case 2:
+			var cancel context.CancelFunc
+			base, cancel = context.WithCancel(base)
+			defer cancel()
+			w.OnCommit = cancel
+			wiring += ",context-cancelled-as-the-commit-lands"
+		}
+	}
+	ctx := endorse.NewContext(base, ectx)
 	o := &Obs{Cfg: cfg, Wiring: wiring, Head0: head, MineDigest: digestOf(img),
 		EndoPath: path.Join(root, outDir, "endorsement.binarypb"), ManPath: path.Join(root, outDir, endorse.ManifestFile)}
 
@@ -194,6 +210,11 @@ func runRaw(cfg Cfg, d Decider, img []byte, head map[string][]byte) *Obs {
 
 // runVF calls endorse.VirtualFirmware, captures panic / stdout, and completes the log.
 func runVF(ctx context.Context, cfg Cfg, w *World, o *Obs) {
+	runVFWith(func() error { return endorse.VirtualFirmware(ctx) }, cfg, w, o)
+}
+
+// runVFWith: vf is what runs the endorse pipeline (the library call, or the whole endorse command).
+func runVFWith(vf func() error, cfg Cfg, w *World, o *Obs) {
 	call := func() {
 		defer func() {
 			if r := recover(); r != nil {
@@ -201,7 +222,7 @@ func runVF(ctx context.Context, cfg Cfg, w *World, o *Obs) {
 				o.RetErr = fmt.Sprint(r)
 			}
 		}()
-		err := endorse.VirtualFirmware(ctx)
+		err := vf()
 		if cfg.MeasOnly || cfg.DryRun {
 			// side effects started in the background by a run that should have none must still be seen
 			time.Sleep(25 * time.Millisecond)
